@@ -73,5 +73,13 @@ def r2(ctx):
     ctx.check('NtpDuration::to_seconds|shape', len(ts) == 1 and 'self.duration' in ts[0], 'to_seconds is %s' % ts, sample=ts)
 
 
-RULES = [r1, r2]
-FLOORS = {'C38-R1': 9, 'C38-R2': 5}
+def r3(ctx):
+    ctx.rule('C38-R3', 'NtpDuration::from_seconds (the reader side of every duration in the observable state): whole seconds are shifted into the upper 32 '
+             'bits only under a guard proving they fit an i32, everything else saturates to MIN/MAX - so the saturated values the daemon publishes '
+             '(NtpDuration::MAX for sources without measurements) read back with their sign')
+    from rules import C32
+    C32.seconds_saturation(ctx)
+
+
+RULES = [r1, r2, r3]
+FLOORS = {'C38-R1': 9, 'C38-R2': 5, 'C38-R3': 3}
